@@ -1,9 +1,12 @@
 package main
 
 import (
+	"bytes"
+	"fmt"
 	"math"
 	"strings"
 
+	"google.golang.org/protobuf/encoding/protowire"
 	"google.golang.org/protobuf/reflect/protoreflect"
 )
 
@@ -280,4 +283,247 @@ func maxMapLen(v *V) int {
 		}
 	}
 	return m
+}
+
+// ---- width-boundary values: deterministic builders (no PRNG), used by the codec engine's sweep -------------
+// Every length prefix on the wire (packed run, string/bytes payload, nested message, map entry) is a varint whose own
+// width changes at 128 and 16384 payload bytes. The builders below produce values whose payloads sit exactly on, one
+// below and one above those boundaries, for every element width a kind can have.
+
+// scalarWireLen: payload bytes of one scalar on the wire (varint / fixed width; string and bytes: the raw length)
+func scalarWireLen(fd protoreflect.FieldDescriptor, v *V) int {
+	switch fd.Kind() {
+	case protoreflect.BoolKind:
+		return 1
+	case protoreflect.Int32Kind, protoreflect.Int64Kind, protoreflect.EnumKind:
+		return protowire.SizeVarint(uint64(v.I))
+	case protoreflect.Uint32Kind, protoreflect.Uint64Kind:
+		return protowire.SizeVarint(v.U)
+	case protoreflect.Sint32Kind, protoreflect.Sint64Kind:
+		return protowire.SizeVarint(protowire.EncodeZigZag(v.I))
+	case protoreflect.Fixed32Kind, protoreflect.Sfixed32Kind, protoreflect.FloatKind:
+		return 4
+	case protoreflect.Fixed64Kind, protoreflect.Sfixed64Kind, protoreflect.DoubleKind:
+		return 8
+	case protoreflect.StringKind, protoreflect.BytesKind:
+		return len(v.B)
+	}
+	panic("kind")
+}
+
+// fixedWidth: 4 or 8 for the fixed-width kinds, 0 otherwise
+func fixedWidth(fd protoreflect.FieldDescriptor) int {
+	switch fd.Kind() {
+	case protoreflect.Fixed32Kind, protoreflect.Sfixed32Kind, protoreflect.FloatKind:
+		return 4
+	case protoreflect.Fixed64Kind, protoreflect.Sfixed64Kind, protoreflect.DoubleKind:
+		return 8
+	}
+	return 0
+}
+
+// elemWidths: the element widths a packed run of this kind can be made of, narrowest first
+func elemWidths(fd protoreflect.FieldDescriptor) []int {
+	switch fd.Kind() {
+	case protoreflect.BoolKind:
+		return []int{1}
+	case protoreflect.Int32Kind, protoreflect.Int64Kind, protoreflect.EnumKind, protoreflect.Uint64Kind, protoreflect.Sint64Kind:
+		return []int{1, 2, 3, 10}
+	case protoreflect.Uint32Kind, protoreflect.Sint32Kind:
+		return []int{1, 2, 3, 5}
+	}
+	if w := fixedWidth(fd); w > 0 {
+		return []int{w}
+	}
+	return nil
+}
+
+// elemOfWidth: the j-th element of the given wire width (different j: different values, zero and the extremes included)
+func elemOfWidth(fd protoreflect.FieldDescriptor, w, j int) *V {
+	switch fd.Kind() {
+	case protoreflect.BoolKind:
+		return vBool(j%2 == 0)
+	case protoreflect.Int32Kind, protoreflect.Int64Kind, protoreflect.EnumKind:
+		switch w {
+		case 1:
+			return vInt([]int64{1, 0, 127, 2, 64}[j%5])
+		case 2:
+			return vInt([]int64{128, 16383, 300, 8192}[j%4])
+		case 3:
+			return vInt([]int64{16384, 1<<21 - 1, 70000}[j%3])
+		case 10:
+			if fd.Kind() == protoreflect.Int64Kind {
+				return vInt([]int64{-1, math.MinInt64, -128, math.MinInt32}[j%4])
+			}
+			return vInt([]int64{-1, math.MinInt32, -128, -2}[j%4])
+		}
+	case protoreflect.Uint32Kind, protoreflect.Uint64Kind:
+		switch w {
+		case 1:
+			return vUint([]uint64{1, 0, 127, 2, 64}[j%5])
+		case 2:
+			return vUint([]uint64{128, 16383, 300, 8192}[j%4])
+		case 3:
+			return vUint([]uint64{16384, 1<<21 - 1, 70000}[j%3])
+		case 5:
+			return vUint([]uint64{math.MaxUint32, 1 << 28, 1 << 31}[j%3])
+		case 10:
+			return vUint([]uint64{math.MaxUint64, 1 << 63, math.MaxUint64 - 1}[j%3])
+		}
+	case protoreflect.Sint32Kind, protoreflect.Sint64Kind:
+		switch w {
+		case 1:
+			return vInt([]int64{1, 0, -1, 63, -64}[j%5])
+		case 2:
+			return vInt([]int64{64, -65, 8191, -8192}[j%4])
+		case 3:
+			return vInt([]int64{8192, -8193, 1<<20 - 1, -(1 << 20)}[j%4])
+		case 5:
+			return vInt([]int64{math.MinInt32, math.MaxInt32, 1 << 27, -(1 << 27) - 1}[j%4])
+		case 10:
+			return vInt([]int64{math.MinInt64, math.MaxInt64, 1 << 62, -(1 << 62) - 1}[j%4])
+		}
+	case protoreflect.Fixed32Kind:
+		return vUint(u32b[j%len(u32b)])
+	case protoreflect.Fixed64Kind:
+		return vUint(u64b[j%len(u64b)])
+	case protoreflect.Sfixed32Kind:
+		return vInt(i32b[j%len(i32b)])
+	case protoreflect.Sfixed64Kind:
+		return vInt(i64b[j%len(i64b)])
+	case protoreflect.FloatKind:
+		return vBits(f32b[j%len(f32b)])
+	case protoreflect.DoubleKind:
+		return vBits(f64b[j%len(f64b)])
+	}
+	panic(fmt.Sprintf("no %d-byte element of kind %s", w, fd.Kind()))
+}
+
+// listOfCount: n elements of width w
+func listOfCount(fd protoreflect.FieldDescriptor, w, n int) *V {
+	lv := &V{K: 'l', L: make([]*V, 0, n)}
+	for j := 0; j < n; j++ {
+		lv.L = append(lv.L, elemOfWidth(fd, w, j))
+	}
+	return lv
+}
+
+// listOfPayload: a list whose packed payload is exactly total bytes: as many w-byte elements as fit, the rest 1-byte
+// elements (nil when the kind cannot hit the length: fixed kinds and total not a multiple of the width)
+func listOfPayload(fd protoreflect.FieldDescriptor, w, total int) *V {
+	ws := elemWidths(fd)
+	if len(ws) == 0 || total <= 0 {
+		return nil
+	}
+	k, rem := total/w, total%w
+	if rem != 0 && ws[0] != 1 {
+		return nil
+	}
+	lv := &V{K: 'l', L: make([]*V, 0, k+rem)}
+	for j, fill := 0, 0; j < k || fill < rem; j++ {
+		// the 1-byte fillers are spread between the wide elements
+		if j < k {
+			lv.L = append(lv.L, elemOfWidth(fd, w, j))
+		}
+		if fill < rem {
+			lv.L = append(lv.L, elemOfWidth(fd, 1, fill))
+			fill++
+		}
+	}
+	return lv
+}
+
+func padBytes(fd protoreflect.FieldDescriptor, n int) *V {
+	if fd.Kind() == protoreflect.StringKind {
+		return vBytes(bytes.Repeat([]byte("w"), n))
+	}
+	b := make([]byte, n)
+	for i := range b {
+		b[i] = byte(i * 7)
+	}
+	return vBytes(b)
+}
+
+// payloadFor: the payload length L with tagSize + SizeVarint(L) + L == target (-1: no such L)
+func payloadFor(target, tagSize int) int {
+	for lp := 1; lp <= 4; lp++ {
+		if L := target - tagSize - lp; L >= 0 && protowire.SizeVarint(uint64(L)) == lp {
+			return L
+		}
+	}
+	return -1
+}
+
+// msgOfSize: a value of type cmi whose encoding is exactly target bytes long: one singular string/bytes field padded to
+// fit, or (types generated by this repository without such a field) one unknown length-delimited record. nil: not possible.
+func (g *vgen) msgOfSize(cmi *msgInfo, target int) *V {
+	out := g.si.emptyV(cmi)
+	if target == 0 {
+		return out
+	}
+	for i, fi := range cmi.fields {
+		fd := fi.fd
+		if fd.IsList() || fd.IsMap() || fi.oneofIdx >= 0 || fd.HasPresence() || (fd.Kind() != protoreflect.StringKind && fd.Kind() != protoreflect.BytesKind) {
+			continue
+		}
+		if L := payloadFor(target, protowire.SizeTag(fd.Number())); L > 0 {
+			out.L[i] = padBytes(fd, L)
+			return out
+		}
+	}
+	if !cmi.pulsar {
+		return nil
+	}
+	num := protowire.Number(1)
+	for cmi.md.Fields().ByNumber(num) != nil || cmi.md.ReservedRanges().Has(num) {
+		num++
+	}
+	L := payloadFor(target, protowire.SizeTag(num))
+	if L < 0 {
+		return nil
+	}
+	out.Unk = protowire.AppendBytes(protowire.AppendTag(nil, num, protowire.BytesType), bytes.Repeat([]byte{0xA5}, L))
+	return out
+}
+
+// smallKey: the j-th of up to 1000 distinct small map keys (signed kinds: negative ones included, which take ten bytes
+// and sort before the positive ones)
+func smallKey(fd protoreflect.FieldDescriptor, j int) *V {
+	n := (j * 37) % 1000
+	switch fd.Kind() {
+	case protoreflect.BoolKind:
+		return vBool(j%2 == 1)
+	case protoreflect.StringKind:
+		return vBytes([]byte(fmt.Sprintf("k%03d", n)))
+	case protoreflect.Uint32Kind, protoreflect.Uint64Kind, protoreflect.Fixed32Kind, protoreflect.Fixed64Kind:
+		return vUint(uint64(n))
+	}
+	return vInt(int64(n - 300))
+}
+
+// smallValue: an unremarkable value for a map entry / list element of any kind (message kinds: the empty message)
+func (g *vgen) smallValue(fd protoreflect.FieldDescriptor, j int) *V {
+	switch fd.Kind() {
+	case protoreflect.MessageKind:
+		return g.si.emptyV(g.si.byName[fd.Message().FullName()])
+	case protoreflect.StringKind, protoreflect.BytesKind:
+		return vBytes([]byte(fmt.Sprintf("v%d", j%10)))
+	case protoreflect.BoolKind:
+		return vBool(j%2 == 0)
+	case protoreflect.EnumKind:
+		return vInt(int64(j % 3))
+	}
+	if ws := elemWidths(fd); len(ws) > 0 {
+		return elemOfWidth(fd, ws[0], j)
+	}
+	panic("kind")
+}
+
+// keyRecLen: bytes of the key record of a map entry (tag of field 1 + payload, length prefix for string keys)
+func keyRecLen(fd protoreflect.FieldDescriptor, k *V) int {
+	n := scalarWireLen(fd, k)
+	if fd.Kind() == protoreflect.StringKind {
+		return 1 + protowire.SizeVarint(uint64(n)) + n
+	}
+	return 1 + n
 }
